@@ -264,7 +264,18 @@ pub trait Translator {
                 // get the entry index for the first/head block in the successor
                 let (block_entry, _) = block_indices[successor_address];
                 // check for duplicate edges
-                if control_flow_graph.edge(block_exit, block_entry).is_ok() {
+                if let Ok(edge) = control_flow_graph.edge_mut(block_exit, block_entry) {
+                    // Both successors of a conditional branch can be the same
+                    // block (a conditional jump to the next instruction). The
+                    // one edge between the two blocks is then taken when
+                    // either condition holds.
+                    if let (Some(existing), Some(condition)) =
+                        (edge.condition_mut(), successor_condition.as_ref())
+                    {
+                        if *existing != *condition {
+                            *existing = Expression::or(existing.clone(), condition.clone())?;
+                        }
+                    }
                     continue;
                 }
                 match successor_condition {
